@@ -700,11 +700,18 @@ def reentrancy_finding(run, res):
     run.count("reentrant_reproductions", 2)
 
 
+def _sim_counts(res):
+    m = re.search(r"number of states generated: (\d+)", res["out"])
+    if m:
+        res["states"], res["distinct"] = int(m.group(1)), 0      # random walks: transitions, not distinct states
+
+
 def engine_b_bus(run, tier, seed):
     T = TIERS[tier]
     prefix = os.path.join(run.workdir, "simb")
     res = run_tlc("UrosBusMC.tla", "UrosBus_sim.cfg", workdir=run.workdir, simulate=f"file={prefix},num={T['sim_num']}",
                   depth=T["sim_depth"], seed=seed, timeout=1200)
+    _sim_counts(res)
     run.add_tlc("UrosBus/simulate", res)
     stats = {}
     n = 0
@@ -734,6 +741,7 @@ def engine_b_est(run, tier, seed):
     prefix = os.path.join(run.workdir, "sime")
     res = run_tlc("EstimatorNode.tla", "EstimatorNode_sim.cfg", workdir=run.workdir,
                   simulate=f"file={prefix},num={T['est_num']}", depth=T["est_depth"], seed=seed, timeout=1200)
+    _sim_counts(res)
     run.add_tlc("EstimatorNode/simulate", res)
     n = 0
     cells = {}
@@ -780,6 +788,17 @@ def engine_c_bus(run, tier, seed):
         run.count("engineC_events", len(w.ev))
         run.count("engineC_reentrant_traces", 1 if w.reent else 0)
         run.count("engineC_rows", len(w.rows))
+    kinds = {}
+    for _, evs in worlds:
+        for e in evs:
+            k = e["a"] + ("" if e.get("err", "ok") == "ok" else "/" + e["err"]) + ("/" + e["k"] if e["a"] == "Wake" else "")
+            kinds[k] = kinds.get(k, 0) + 1
+    need = ["Wake/pub", "Wake/set", "Wake/nop", "StartProc", "LoggerRow", "Nested", "Deliver", "PublishEnd", "SetParam", "Obs", "Run",
+            "PublishBegin", "PublishBegin/type", "CreateLogger", "CreatePublisher/locked", "CreateSubscriber/locked", "SetParam/noinit"]
+    missing = [k for k in need if not kinds.get(k)]
+    if missing:
+        raise MachineryError(f"engine C: vacuous coverage, event kinds never recorded: {missing}")
+    run.cov["engineC_event_kinds"] = kinds
     nval = 0
     shards = [worlds[i::4] for i in range(4)] if len(worlds) > 200 else [worlds]
     with cf.ThreadPoolExecutor(len(shards)) as ex:
@@ -1152,6 +1171,13 @@ def replay_file(run, path):
     elif eng == "script":
         p2, got, reent = scripted_two_topic()
         report(run, p2, data)
+    elif eng == "C-real-nodes":
+        real_nodes(run)
+    elif eng == "hook":
+        if not hook_present():
+            raise MachineryError("this replay needs the source hook (hooks/uros_hooks.patch); run with VERIF_REPO=<patched tree>")
+        from harness import uros_hook
+        uros_hook.run_hooked(run, validate_traces, tlc_trace)
     else:
         raise MachineryError(f"replay file {path} has no replayable engine tag")
     return run.finish({"traces_validated_against_impl": 1, "replay_of": path})
